@@ -22,6 +22,11 @@ CLAIMED['C05'] = dict(design='2/C05', text='Instance::evaluate (check_bound, get
     'constraints, dependencies, fixed values); state values, coefficients, constants and bound endpoints are symbolic, so values on either side of the 1e-6 and '
     '1e-7 tolerances are solver cases. z3 proves every Solution field equals the driver-computed expectation and that rejection happens exactly when required.',
     note='R-model; valid instances only; skeleton sizes as listed in evidence; library models trusted and validated natively each run.')
+CLAIMED['C03'] = dict(design='2/C03', text='partial_evaluate of Function/Linear/Quadratic/Polynomial, Constraint, RemovedConstraint and Instance followed by evaluate is executed '
+    'symbolically and compared with the driver-computed value of the original at the combined assignment: every id pattern over {0,1,2}, ten splits of the state '
+    'into first fixed part / second fixed part / remaining part / absent, symbolic coefficients and values; also: no fixed id is mentioned afterwards, returned ids '
+    'are fixed ids that occurred, fixed values are recorded on the decision variables, two-step fixing equals one-step fixing.',
+    note='R-model with magnitudes in {0} u [2^-6,2^6]; equality up to the documented epsilon-dropping allowance; in-bound states; library models trusted and validated natively each run.')
 NOT_APPLICABLE = {
     'C20': 'artifact round-trip lives in ocipkg/tar/sha2/serde_json/chrono and the file system: none of it is in the crate MIR and all of it is foreign/IO under Kani; a model would verify the model, not the code',
 }
